@@ -130,6 +130,7 @@ func (r *runner) compareRecord(path string, rec *auditRec, where string, o *Obs,
 	wantUp := []string{}
 	if ps != nil && ps.Kind == "joiner" {
 		wantUp = append(wantUp, r.ref.Emit[t.Proc+".members"]...)
+		wantUp = append(wantUp, r.ref.Emit[t.Proc+".members2"]...)
 	} else {
 		for _, in := range t.Ins {
 			wantUp = append(wantUp, in)
